@@ -169,3 +169,71 @@ Example C12_positions_nonvacuous :
   lex greek no_uni no_uni (layout C12_sample_layout [32; 10]) =
     LexOk (expected (1, 0) C12_sample_layout ++ [mkTok (3, 14) TkEOF EmptyString]).
 Proof. vm_compute. repeat split. Qed.
+From Coq Require Import ZArith Bool List String.
+Require Import X.Base.Value X.Syn.Tok X.Lex.Lexer X.Lex.LexProofs.
+Require Import X.Lex.LexRules X.Lex.LexRulesProofs X.gen.GenLexer X.Bridge.BrLexerFns X.Bridge.BrLexer.
+Import ListNotations.
+Open Scope Z_scope.
+
+(* (6) The model lexer IS the source.  gen/GenLexer.v is regenerated on every run from parser/lexer/{lexer,state,
+   utils,token}.go: one term of the DSL of Lex/LexRules.v per Go function (Lex, next, peek, backup, emit, emitValue,
+   emitEOF, word, ignore, accept, acceptRun, acceptWord, error, digitVal, lower, scanDigits, scanEscape, scanString,
+   root, number, scanNumber, dot, nilsafe, identifier, not, IsSpace, IsAlphaNumeric, IsAlphabetic), statements in
+   source order.  Nothing in the current source is outside the shapes the translator reads. *)
+Theorem C12_lexer_source_recognised : genlexer_all_recognised = true.
+Proof. exact genlexer_recognised. Qed.
+Print Assumptions C12_lexer_source_recognised.
+
+(* Running the interpreter of Lex/LexRules.v on the REGENERATED state functions, with the driver loop and the fuel
+   of the model, gives exactly Lexer.lex: on EVERY input (list of runes) and for every unicode oracle.  The tokens,
+   their kinds, values and locations, the error location, and out-of-fuel all coincide. *)
+Theorem C12_model_lexer_is_source : forall uni_letter uni_digit uni_space input,
+  gen_lex uni_letter uni_digit uni_space lexer_funs input = of_lex (lex uni_letter uni_digit uni_space input).
+Proof. exact gen_lex_is_lex. Qed.
+Print Assumptions C12_model_lexer_is_source.
+
+(* ... in particular the interpretation never reaches an ill-typed operation or an unrecognised statement. *)
+Theorem C12_regenerated_lexer_never_crashes : forall uni_letter uni_digit uni_space input w,
+  gen_lex uni_letter uni_digit uni_space lexer_funs input <> GenCrash w.
+Proof. exact gen_lex_never_crashes. Qed.
+Print Assumptions C12_regenerated_lexer_never_crashes.
+
+(* The regenerated `Lex` itself (set-up, loop, error test), run by the interpreter with 2*len+10 iterations for
+   every loop: the model's answer, whenever the model's own fuel 2*len+2 suffices. *)
+Theorem C12_model_Lex_is_source : forall uni_letter uni_digit uni_space input,
+  lex uni_letter uni_digit uni_space input <> LexOutOfFuel ->
+  gen_Lex uni_letter uni_digit uni_space (2 * List.length input + 10) lexer_funs input =
+  of_lex (lex uni_letter uni_digit uni_space input).
+Proof. exact gen_Lex_is_lex. Qed.
+Print Assumptions C12_model_Lex_is_source.
+
+(* One call of any state function (root, number, dot, nilsafe, identifier, not) on ANY well-formed Go-shaped state g
+   (0 <= start <= end <= len(input)), inner loops given len(unread)+10 iterations: the regenerated function returns
+   the state function and the state that Lexer.step computes on abs g (offsets -> the zipper of Lexer.v). *)
+Theorem C12_state_functions_are_source : forall uni_letter uni_digit uni_space F st g,
+  wf g -> rl g + 10 <= Z.of_nat F ->
+  ret (sem_of uni_letter uni_digit uni_space F lexer_funs (stfn_name st) [] g)
+      [vfn (fst (step uni_letter uni_digit uni_space st (abs g)))]
+      (snd (step uni_letter uni_digit uni_space st (abs g))).
+Proof. exact state_fn_is_model. Qed.
+Print Assumptions C12_state_functions_are_source.
+
+(* The primitive the position theorems rest on: next (loc/prev bookkeeping, newline). *)
+Theorem C12_next_is_source : forall uni_letter uni_digit uni_space F g, wf g ->
+  ret (sem_of uni_letter uni_digit uni_space F lexer_funs "next" [] g) [VInt (fst (next (abs g)))] (snd (next (abs g))).
+Proof. exact next_is_model. Qed.
+Print Assumptions C12_next_is_source.
+
+(* unescape is a primitive of the DSL; its escape table (the switch of unescapeChar on the character after the
+   backslash) is regenerated and agrees with Lexer.unescapeChar on all 256 byte values: the one-character escapes
+   with their values, the letters opening a hex escape with their digit counts, the digits opening an octal escape.
+   The text around the table (unescape, unhex, newlineNormalizer, the hex and octal loops) is compared with the text
+   the model was written against (genlexer_recognised). *)
+Theorem C12_unescape_table_is_source : esc_table_agrees = true /\ esc_hex_agrees = true /\ esc_oct_agrees = true.
+Proof. exact (conj unescapeChar_escapes_bridge (conj unescapeChar_hex_bridge unescapeChar_octal_bridge)). Qed.
+Print Assumptions C12_unescape_table_is_source.
+
+(* non-vacuity: a concrete input through the regenerated functions *)
+Example C12_model_lexer_is_source_example :
+  gen_lex no_uni no_uni no_uni lexer_funs example_input = GenOk example_tokens.
+Proof. exact gen_lex_example. Qed.
